@@ -30,7 +30,7 @@ func init() {
 		Setup:   cliSetup,
 		Run: func(env *core.Env, ci any) core.Outcome {
 			c := ci.(*C05Case)
-			opts := canon.Options{MaskImports: true}
+			opts := canon.Options{MaskImports: true, KeepParens: true}
 			var v mverdict
 			switch c.Mode {
 			case "api":
